@@ -213,13 +213,18 @@ def run(c, chk):
             # and at least one path has it
             have = False
             for ap in lex.actions[r]:
-                for x in ap.of('line'):
-                    guarded = x[2] and x[1] == 1 and newline_guard(ap)
-                    if not guarded:
-                        bad = 'the rule can match %s newlines but an action path adds to cfg->line outside a per-newline loop' % sorted(counts)
-                        badap = ap
-                    else:
-                        have = True
+                tot, _lp = ap.line_incs()
+                nl = newline_hits(ap)
+                if tot is None:
+                    bad = 'the rule can match %s newlines but an action path adds an amount to cfg->line that is not a count of newlines' % sorted(counts)
+                    badap = ap
+                elif tot != nl:
+                    # per-newline increments in the loop, or a counter added once after it: either way the total on a
+                    # path equals the number of bytes of the text found to be a newline on that path
+                    bad = 'the rule can match %s newlines but an action path adds %d to cfg->line after having found %d newline(s) in the text' % (sorted(counts), tot, nl)
+                    badap = ap
+                elif tot:
+                    have = True
             if not have and not bad:
                 bad = 'the rule can match %s newlines but the action does not count them' % sorted(counts)
                 badap = lex.actions[r][0]
@@ -300,6 +305,17 @@ def flag_facts(conds):
         if y.startswith('cfg->flags has '):
             out[y] = not neg
     return out
+
+
+def newline_hits(ap):
+    """number of assumptions on this path saying that a byte reached from the matched text is a newline"""
+    n = 0
+    for cn, t, _ in ap.path.assume:
+        if cn[0] == 'icmp' and cn[1] in ('eq', 'ne') and ('c', 10) in (cn[2], cn[3]) and ((cn[1] == 'eq') == t):
+            other = cn[2] if cn[3] == ('c', 10) else cn[3]
+            if sym.mentions(other, lambda v: v == ('g', '@cfg_yytext')):
+                n += 1
+    return n
 
 
 def newline_guard(ap):
